@@ -8,6 +8,7 @@ from fractions import Fraction as F
 
 from .gal import q_str, opt, bool_term, str_term, json_term, bounds_term, num_json
 from .progs import Batch
+from .core import parse_nlist
 
 # ---------------------------------------------------------------------------------- patterns (text -> Regex.v term)
 def _cls(lo, hi):
@@ -528,6 +529,7 @@ class Case:
         self.build_err = ""
         self.gen_err = ""
         self.mismatches = []     # (doc index or None, code)
+        self.wf = None           # WfP.wf_ty holds of every type the model generates for the case (None: not evaluated)
         self.batch_case = None
 
     def cfg(self):
@@ -603,7 +605,8 @@ def run_cases(ctx, cases, name, rows_fn=None, chunk=40):
         text = header + "Definition cases : list (N * ccase) := [\n  " + ";\n  ".join(terms) + "].\n"
         text += "Definition MM := Eval vm_compute in all_mismatches T FT cases.\n"
         text += "Definition VV := Eval vm_compute in all_valid FT cases.\n"
-        return gi, ctx.coq_lists("%s_%d" % (name, gi), text, ["MM", "VV"], timeout=2400)
+        text += "Definition WF := Eval vm_compute in all_not_wf T cases.\n"
+        return gi, ctx.coq_lists("%s_%d" % (name, gi), text, ["MM", "VV", "WF"], timeout=2400)
 
     with cf.ThreadPoolExecutor(max_workers=12) as ex:
         for gi, vals in ex.map(one, range(len(groups))):
@@ -616,6 +619,10 @@ def run_cases(ctx, cases, name, rows_fn=None, chunk=40):
                     else:
                         c.mismatches.append((di, code))
                         c.docs[di]["mm"] = code
+            for c in grp:
+                c.wf = True
+            for ci in parse_nlist(vals["WF"]):
+                grp[ci].wf = False
             for ci, lst in parse_assoc_bool(vals["VV"]):
                 for di, ok in lst:
                     grp[ci].docs[di]["valid"] = ok
